@@ -1,5 +1,5 @@
-(* Model of the access paths of pgread (worktree state after the four "fix:" commits 383cf4f, 34e36b1, eb776ad,
-   d4aad97):
+(* Model of the access paths of pgread (state after the four "fix:" commits 9d33496, 3f6901f, 9978c3f, e8977a2 on
+   /repo main):
      pgdump/pgdump.go   withDefaults, dumpTable, DumpDatabaseFromFiles, DumpDataDir
      pgdump/remote.go   NewRemoteClient, Version, Control, Credentials, Databases, Database, loadCatalog, Tables,
                         TablesByName, Table, Columns, ColumnNames, Query, QueryByName, DumpTable, DumpDatabase,
@@ -20,8 +20,8 @@ Require Import PG.Base.Bytes PG.Base.Value PG.C12.Lib.
 Require Import Coq.Strings.String.
 Import Coq.Init.Datatypes Coq.Lists.List ListNotations.
 
-Definition lit (s : String.string) : bytes := String.list_byte_of_string s.
-Arguments lit s%string.
+Definition lit (s : blit) : bytes := blit_to s.
+Arguments lit s%blit.
 
 Section Model.
 Variable E : env.
@@ -450,8 +450,8 @@ Inductive result :=
 | RQuery (q : list row) | RDumpDatabase (o : option DatabaseDump) | RDumpAll (l : list DatabaseDump)
 | RError (e : exec_err).
 
-Definition is_cmd (cmd : bytes) (s : String.string) : bool := beq cmd (lit s).
-Arguments is_cmd cmd s%string.
+Definition is_cmd (cmd : bytes) (s : blit) : bool := beq cmd (lit s).
+Arguments is_cmd cmd s%blit.
 Definition Exec (fs : fsys) (c : client) (args : list bytes) : client * result :=
   let cmd := match args with a :: _ => a | [] => [] end in
   let nargs := Z.of_nat (length args) in
@@ -554,3 +554,5 @@ Fixpoint run_calls (fs : fsys) (c : client) (ks : list call) : list answer :=
   end.
 
 End Model.
+(* Arguments declared inside a section do not survive it *)
+Arguments is_cmd cmd s%blit.
